@@ -57,8 +57,16 @@ func (g *syntaxGen) typ(d int) string {
 	}
 }
 
+var synNumbers = []string{"0", "00", "017", "0o17", "0O17", "0b101", "0B11", "0x1F", "0X1f", "1_000", "0_7", "0x_1f", "1e3", "1E3", "1e+10", "1E-2", "0e0", "00e2", ".5", "1.", "1.5e3", "0x1p-2", "0X1P+2", "0x1.8p1",
+	"3i", "0i", "017i", "0123i", "00i", "0e0i", "0e1i", "00e2i", "0e+3i", "0E0i", "0_0e1i", "012e1i", "1.5i", ".5i", "1.i", "1e3i", "0x1p-2i", "0b11i", "0o7i", "0x1Fi", "1_0i",
+	"'\\n'", "'\\x41'", "'\\u00e9'", `"\t\x00"`}
+
 func (g *syntaxGen) expr(d int) string {
 	if d <= 0 {
+		if g.n("numlit", 0, 5) == 0 {
+			// number literals in every spelling the scanner accepts: the printer normalises some of them
+			return g.pick("num", synNumbers)
+		}
 		return g.pick("atom", []string{"a", "b", "c", "x.f", "1", "2.5", "0x1f", "1e3", "'c'", `"s"`, "`raw`", "3i", "nil", "true", "f()", "a[0]", "p.q.r"})
 	}
 	switch g.n("eform", 0, 19) {
